@@ -150,7 +150,7 @@ Rewrite == /\ phase = "rewrite"
            /\ t' \in Rw(t) /\ UNCHANGED <<orig, phase>>
 Next == Derive \/ Start \/ Rewrite
 Spec == Init /\ [][Next]_vars
-FairSpec == Spec /\ WF_vars(Rewrite)
+FairSpec == Spec /\ WF_vars(Next)
 
 (* C02 on the model: every reachable term means what the original means, wherever the original *)
 (* evaluates without error; and no name escapes or is captured                                  *)
@@ -160,7 +160,9 @@ Preserve == phase = "rewrite" =>
 Scoped == phase = "rewrite" => FVars(t) \subseteq FVars(orig)
 (* C18 on the model: rewriting never gets stuck on a malformed term, and stops *)
 WellFormedAlways == phase = "rewrite" => WellFormed(t)
-Terminates == <>[](phase = "rewrite" /\ Rw(t) = {})
+(* every behaviour that starts rewriting reaches a normal form and stays there (a derivation that *)
+(* dead-ends before the program is complete never enters the rewrite phase)                     *)
+Terminates == <>[](phase = "rewrite" => Rw(t) = {})
 (* C14 on the model: normal forms of packaging chains keep no intermediate packaging *)
 NormalFormShape == (phase = "rewrite" /\ Rw(t) = {}) => ShapeOK(orig, t)
 (* every step is measured: the term gets no bigger than a bound derived from the original *)
